@@ -194,6 +194,15 @@ def clusterComputeToken (schema : TableSnapshot) (ks table : List UInt8) (key : 
         | .error n => .error (.valueTooLong n)
         | .ok tok => .ok tok
 
+/-- `compute_token` with the Rust-side type check of `SerializedValues::from_serializable` made explicit:
+`typesOk = false` (a value whose Rust type its column does not accept — C17's subject) is a `Serialization` error,
+after the table lookup. -/
+def clusterComputeTokenChecked (typesOk : Bool) (schema : TableSnapshot) (ks table : List UInt8)
+    (key : List RawValue) : Except ClusterTokenErr Int64 :=
+  match clusterComputeToken schema ks table key with
+  | .error .unknownTable => .error .unknownTable
+  | r => if typesOk then r else .error .serialization
+
 /-! ### The specification side -/
 
 /-- The serialized partition key as the server hashes it: the single component's bytes, or for a composite key
